@@ -48,6 +48,8 @@ REAL_VS_STUB = {
 }
 FAULT_PROBES = {"duplicate_key_put": "dup_rejected", "oversize_key_put": "key_256_rejected", "write_through_readonly_handle": "readonly_write_rejected",
                 "use_of_closed_handle": "closed_handle_rejected", "non_bytes_value": "badvalue_rejected", "exclusive_create_of_existing_file": "create_existing_rejected"}
+# a small share of the runs is repeated by fresh interpreters started with `python -O` (assert statements stripped)
+INTERP_VARIANTS = [{"flags": ["-O"], "runs": {"quick": 2000, "thorough": 40000}, "what": "python -O (assert statements stripped from the code under test)"}]
 PROBES = ["shortcut_taken", "rescan_forced_by_other_handle", "rescan_after_failed_put", "flush_by_bufsize_threshold", "key_255", "key_256_rejected",
           "direct_raw_write", "dup_rejected", "readonly_write_rejected", "closed_handle_rejected", "clone_used", "queued_key_read_in_session",
           "history_len_le_6", "badvalue_rejected", "put_left_in_the_queue", "create_existing_rejected", "explicit_flush",
